@@ -45,6 +45,23 @@ OPS = [
     ("i->j", re.compile(r"\[i\]"), "[j]"),
     ("j->i", re.compile(r"\[j\]"), "[i]"),
     ("+=->-=", re.compile(r"\+="), "-="),
+    ("right->left", re.compile(r"side='right'"), "side='left'"),
+    ("left->right", re.compile(r"side='left'"), "side='right'"),
+    ("[1:-1]->[1:]", re.compile(r"\[1:-1\]"), "[1:]"),
+    ("[:-1]->[:]", re.compile(r"\[:-1\]"), "[:]"),
+    ("[1:]->[:]", re.compile(r"\[1:\]"), "[:]"),
+    ("y1->y2", re.compile(r"\bself\.y1\b"), "self.y2"),
+    ("y2->y1", re.compile(r"\bself\.y2\b"), "self.y1"),
+    ("start_ind->end_ind", re.compile(r"\bstart_ind\b"), "end_ind"),
+    ("end_ind->start_ind", re.compile(r"\bend_ind\b"), "start_ind"),
+    ("interval0->1", re.compile(r"interval\[0\]"), "interval[1]"),
+    ("interval1->0", re.compile(r"interval\[1\]"), "interval[0]"),
+    ("mp->y", re.compile(r"\bself\.mp\b"), "self.y"),
+    ("unique->sort", re.compile(r"np\.unique\("), "np.sort("),
+    ("minus_eps", re.compile(r"tStart-Eps"), "tStart+Eps"),
+    ("plus_eps", re.compile(r"tEnd\+Eps"), "tEnd-Eps"),
+    ("min->max_fn", re.compile(r"= min\("), "= max("),
+    ("max->min_fn", re.compile(r"= max\("), "= min("),
 ]
 
 
